@@ -17,7 +17,7 @@ RULE = ("(1) every runtime block of ET/DT/ES (both Modbus framings; ES blocks of
         "style / field index, outcome class) tuples")
 ASSUMPTIONS = ["DT.read_settings_data() is outside the property's wording (it names ET and ES for the bulk settings read)",
                "a key may map to None; the key set must contain every id of the covered sensors/settings"]
-MUST = ["single_reads_after_capability_change", "blocks_decoded", "none_values_seen", "valueerror_paths_seen", "field_sweeps", "end_to_end_runtime",
+MUST = ["stateful_decode_compared", "settings_registers_refused", "single_reads_after_capability_change", "blocks_decoded", "none_values_seen", "valueerror_paths_seen", "field_sweeps", "end_to_end_runtime",
         "end_to_end_settings", "single_reads", "es_short_blocks"]
 EXHAUSTIVE = {"quick": False, "thorough": True}
 
@@ -106,11 +106,31 @@ def fields_part(spec, part):
                     b = bytearray(base)
                     b[2 * field:2 * field + 2] = v.to_bytes(2, "big")
                     part.evaluations += 1
+                    if v % 5 == 0:
+                        # the verdict must depend on the bytes only, not on what this object decoded before
+                        try:
+                            type(sn)(sn.id_, sn.offset, sn.name).read_value(PR(bytes(b), None))
+                            fresh = "ok"
+                        except ValueError:
+                            fresh = "ValueError"
+                        except Exception:       # noqa
+                            fresh = "other"
+                    else:
+                        fresh = None
                     try:
                         sn.read_value(PR(bytes(b), None))
                         ok += 1
+                        if fresh == "ValueError":
+                            part.violate("C11/decode/undecodable-value-accepted-after-earlier-read",
+                                         f"{type(sn).__name__}.read_value({bytes(b).hex()}) returned a value on an object that had decoded other "
+                                         f"contents before, but raises ValueError on a fresh object",
+                                         {"field": True, "type": type(sn).__name__, "bytes": bytes(b).hex()})
+                        elif fresh == "ok":
+                            part.count("stateful_decode_compared")
                     except ValueError:
                         ve += 1
+                        if fresh == "ValueError":
+                            part.count("stateful_decode_compared")
                     except Exception as e:      # noqa
                         part.violate(f"C11/decode/{type(e).__name__}",
                                      f"{type(sn).__name__}.read_value({bytes(b).hex()}) raised {type(e).__name__}: {e}",
@@ -137,6 +157,10 @@ def e2e_part(spec, part):
             for lo, hi in ((45127, 45134), (45200, 45202), (45246, 45288), (45350, 45358), (45482, 45482), (47000, 47010),
                            (47120, 47120), (47500, 47614), (47900, 47935)):
                 models.fill_random(sim, lo, hi, rnd, style)
+            if rnd.random() < 0.4:      # firmware that rejects single setting registers with ILLEGAL DATA ADDRESS
+                for a in rnd.sample((47120, 45482, 45264, 47010, 47500, 47916, 45132), rnd.randrange(1, 4)):
+                    sim.refused.append((a, a))
+                part.count("settings_registers_refused")
         elif fam == "DT":
             sim = models.dt_sim(tag=rnd.choice(("DTU", "MSU", "DSN", "PSC")), rnd=rnd, style=style)
         else:
@@ -158,6 +182,9 @@ def e2e_part(spec, part):
                 out["st"] = await inv.read_settings_data()
                 out["st_ids"] = {s.id_ for s in inv.settings()} | set(out["st"])
                 part.count("end_to_end_settings")
+                again = await inv.read_settings_data()      # unchanged registers: same keys, same None pattern
+                # (a setting the inverter refused with ILLEGAL DATA ADDRESS is dropped from settings() after the first read: documented)
+                out["st_changed"] = sorted(k for k in out["st"] if k in again and (out["st"][k] is None) != (again[k] is None))
             # single-value calls: only ValueError may report undecodable content
             ids = [s.id_ for s in inv.settings()]
             rnd.shuffle(ids)
@@ -205,6 +232,9 @@ def e2e_part(spec, part):
                 part.violate("C11/e2e/missing-ids", f"{fam}: read_runtime_data() lacks {sorted(miss)[:5]}", case)
             if any(v is None for v in out["rt"].values()):
                 part.count("none_values_seen")
+        if out.get("st_changed"):
+            part.violate("C11/e2e/undecodable-setting-reported-on-second-read",
+                         f"{fam}: settings {out['st_changed'][:4]} switched between None and a value on a second read_settings_data() of the same registers", case)
         if "st" in out:
             miss = out["st_ids"] - set(out["st"])
             if miss:
